@@ -1253,6 +1253,10 @@ class ReadParquetFSSpec(ReadParquet):
         return dataset_info
 
     def _filtered_task(self, index: int):
+        if self._plan["empty"]:
+            # The plan, and the meta stored in it, is shared between all
+            # column projections of this dataset
+            return self._meta
         tsk = (self._io_func, self._plan["parts"][index])
         if self._series:
             return (operator.getitem, tsk, self.columns[0])
